@@ -4,7 +4,7 @@ from __future__ import annotations
 import ast
 
 from ..cfg import typestate, witness_path
-from ..core import INCONCLUSIVE, OK, VIOLATION, Ctx, is_self_attr, local_defs
+from ..core import INCONCLUSIVE, OK, VIOLATION, Ctx, bool_equiv, canon, is_self_attr, local_defs, parse_cond
 from ..model import AnalysisError, body_walk, norm
 from .common import is_history_append
 
@@ -53,8 +53,15 @@ def r09_1(ctx: Ctx):
     obs = []
     if not memo:
         rets = [n for n in body_walk(getter.node) if isinstance(n, ast.Return)]
-        ok = bool(rets) and all(any(is_self_attr(x, "current_population", sn) for x in ast.walk(r.value)) for r in rets if r.value is not None)
-        obs.append(ctx.ob("R09.1", getter, getter.node, status=OK if ok else VIOLATION, detail="centroid recomputed from current_population on every access" if ok else f"the centroid accessor does not derive its value from current_population: `{norm(rets[0].value) if rets else '?'}`", construct="centroid-getter"))
+        import copy
+
+        from ..core import _Subst
+
+        gdefs = local_defs(getter)
+        rvals = [_Subst(gdefs, 4).visit(copy.deepcopy(r.value)) for r in rets if r.value is not None]
+        ok = bool(rvals) and all(any(is_self_attr(x, "current_population", sn) for x in ast.walk(v)) for v in rvals)
+        other = any(is_self_attr(x, None, sn) and x.attr in ("_history", "all_individuals", "_centroid", "best_individual", "best_current_individual", "_sprout_seed") for v in rvals for x in ast.walk(v))
+        obs.append(ctx.ob("R09.1", getter, getter.node, status=OK if ok else VIOLATION if (other or not rvals) else INCONCLUSIVE, detail="centroid recomputed from current_population on every access" if ok else f"the centroid accessor does not derive its value from current_population: `{norm(rets[0].value) if rets else '?'}`", construct="centroid-getter"))
         # no leftover cache read anywhere
         for ci in ctx.concrete_demes():
             f = ctx.prog.lookup_method(ci, "run_metaepoch")
@@ -157,8 +164,11 @@ def r09_2(ctx: Ctx):
     sn = getter.self_name()
     calls = [c for c in body_walk(getter.node) if isinstance(c, ast.Call) and norm(c.func).endswith("compute_centroid")]
     if calls:
-        ok = all(len(c.args) == 1 and is_self_attr(c.args[0], "current_population", sn) for c in calls)
-        obs.append(ctx.ob("R09.2", getter, calls[0], status=OK if ok else VIOLATION, detail="compute_centroid(self.current_population)" if ok else f"the accessor computes the centroid of `{norm(calls[0].args[0]) if calls[0].args else '?'}`, not of the current population"))
+        gdefs = local_defs(getter)
+        argt = [canon(c.args[0], gdefs) if len(c.args) == 1 else "?" for c in calls]
+        ok = all(a == f"{sn}.current_population" for a in argt)
+        definite = any(a.startswith(f"{sn}.") and a != f"{sn}.current_population" for a in argt)
+        obs.append(ctx.ob("R09.2", getter, calls[0], status=OK if ok else VIOLATION if definite else INCONCLUSIVE, detail="compute_centroid(self.current_population)" if ok else f"the accessor computes the centroid of `{norm(calls[0].args[0]) if calls[0].args else '?'}`, not of the current population"))
         cc = ctx.prog.func("pyhms.demes.abstract_deme", "compute_centroid")
         obs.extend(_check_mean(ctx, cc, cc.params()[0]))
     else:
@@ -166,46 +176,124 @@ def r09_2(ctx: Ctx):
     return obs
 
 
+def _value_exprs(e):
+    """The non-None value expressions a (possibly conditional) return expression can yield."""
+    if isinstance(e, ast.IfExp):
+        return _value_exprs(e.body) + _value_exprs(e.orelse)
+    if isinstance(e, ast.Constant) and e.value is None:
+        return []
+    return [e]
+
+
 def _check_mean(ctx, fn, param):
     obs = []
     rets = [r for r in body_walk(fn.node) if isinstance(r, ast.Return) and r.value is not None and not (isinstance(r.value, ast.Constant) and r.value.value is None)]
     if not rets:
         return [ctx.ob("R09.2", fn, fn.node, status=INCONCLUSIVE, detail="no value-returning path", construct="mean")]
+    defs = local_defs(fn)
+    import copy
+
+    from ..core import _Subst
+
     for r in rets:
-        v = r.value
-        ok = False
-        why = f"`{norm(v)}` is not a recognised per-coordinate mean"
-        if isinstance(v, ast.Call):
-            name = norm(v.func)
-            axis = next((k.value for k in v.keywords if k.arg == "axis"), v.args[1] if len(v.args) > 1 and name.split(".")[-1] in ("mean", "average") else None)
-            if name.split(".")[-1] in ("mean", "average") and v.args or (isinstance(v.func, ast.Attribute) and v.func.attr == "mean"):
-                src = v.args[0] if (v.args and name.split(".")[0] in ("np", "numpy")) else (v.func.value if isinstance(v.func, ast.Attribute) else None)
-                if axis is None or not (isinstance(axis, ast.Constant) and axis.value == 0):
-                    why = f"mean taken with axis={norm(axis) if axis is not None else 'None'} (must be axis=0: per coordinate, over individuals)"
-                else:
-                    # the averaged collection: genomes of the population parameter
-                    srcs = [src]
-                    txt = norm(src)
-                    names = {x.id for x in ast.walk(src) if isinstance(x, ast.Name)}
-                    over_param = param is None or param in names
-                    genomes = ".genome" in txt
-                    sliced = any(isinstance(x, ast.Subscript) and isinstance(x.slice, ast.Slice) and isinstance(x.value, ast.Name) and x.value.id == param for x in ast.walk(src))
-                    filtered = any(isinstance(x, ast.comprehension) and x.ifs for x in ast.walk(src))
-                    if over_param and genomes and not sliced and not filtered:
-                        ok = True
+        for v0 in _value_exprs(r.value):
+            v = _Subst(defs, 4).visit(copy.deepcopy(v0))
+            st = INCONCLUSIVE
+            why = f"`{norm(v0)[:80]}` is not a recognised per-coordinate mean"
+            if isinstance(v, ast.Call):
+                name = norm(v.func)
+                last = name.split(".")[-1]
+                is_np = name.split(".")[0] in ("np", "numpy")
+                if last in ("mean", "average") and (v.args if is_np else isinstance(v.func, ast.Attribute)):
+                    src = v.args[0] if is_np else v.func.value
+                    axis = next((k.value for k in v.keywords if k.arg == "axis"), (v.args[1] if len(v.args) > 1 else None) if is_np else (v.args[0] if v.args else None))
+                    if axis is None or not (isinstance(axis, ast.Constant) and axis.value == 0):
+                        st = VIOLATION if (axis is None or isinstance(axis, ast.Constant)) else INCONCLUSIVE
+                        why = f"mean taken with axis={norm(axis) if axis is not None else 'None'} (must be axis=0: per coordinate, over individuals)"
+                    elif any(k.arg == "weights" for k in v.keywords):
+                        st, why = VIOLATION, "a weighted average is not the mean of the population"
                     else:
-                        why = f"the mean ranges over `{txt}`, not over the genomes of the whole population passed"
-        obs.append(ctx.ob("R09.2", fn, r, status=OK if ok else VIOLATION, detail="mean over axis 0 of the genomes of the population passed" if ok else why))
+                        txt = norm(src)
+                        names = {x.id for x in ast.walk(src) if isinstance(x, ast.Name)}
+                        over_param = param is None or param in names
+                        genomes = ".genome" in txt
+                        sliced = any(isinstance(x, ast.Subscript) and isinstance(x.slice, ast.Slice) and (param is None or (isinstance(x.value, ast.Name) and x.value.id == param)) for x in ast.walk(src))
+                        filtered = any(isinstance(x, ast.comprehension) and x.ifs for x in ast.walk(src))
+                        if over_param and genomes and not sliced and not filtered:
+                            st = OK
+                        elif sliced or filtered:
+                            st, why = VIOLATION, f"the mean ranges over `{txt[:70]}`, not over the genomes of the whole population passed"
+                        else:
+                            why = f"cannot tell whether `{txt[:70]}` are the genomes of the whole population passed"
+                elif last in ("median", "max", "min", "sum"):
+                    st, why = VIOLATION, f"`{norm(v0)[:80]}` is not the mean"
+            obs.append(ctx.ob("R09.2", fn, r, status=st, detail="mean over axis 0 of the genomes of the population passed" if st == OK else why))
     return obs
 
 
-def _sibling_filter_kind(ctx, f, comp_if: ast.AST, sib: str, selfn: str):
-    t = norm(comp_if)
-    if t == f"{sib}.is_active":
-        return "active"
-    if t.replace("(", "").replace(")", "") in (f"{sib}.is_active or not {selfn}.check_only_active", f"not {selfn}.check_only_active or {sib}.is_active"):
-        return "active-or-all"
-    return None
+def _conjuncts(conds):
+    out = []
+    for c in conds:
+        if isinstance(c, ast.BoolOp) and isinstance(c.op, ast.And):
+            out.extend(_conjuncts(c.values))
+        else:
+            out.append(c)
+    return out
+
+
+def _implies(a: ast.AST, b: ast.AST) -> bool | None:
+    """a => b propositionally"""
+    return bool_equiv(ast.BoolOp(op=ast.Or(), values=[ast.UnaryOp(op=ast.Not(), operand=a), b]), ast.Constant(value=True))
+
+
+def _sibling_set_status(sd: ast.AST, tree_p: str, deme_v: str, selfn: str, want_filter: str, defs):
+    """Classify the expression the filter iterates to get the siblings -> (status, text)."""
+    import copy
+
+    from ..core import _Subst
+
+    e = _Subst(defs, 4).visit(copy.deepcopy(sd)) if defs else sd
+    while isinstance(e, ast.Call) and norm(e.func) in ("list", "tuple") and len(e.args) == 1:
+        e = e.args[0]
+    conds, var, it = [], None, e
+    if isinstance(e, ast.ListComp) and len(e.generators) == 1 and isinstance(e.generators[0].target, ast.Name) and norm(e.elt) == e.generators[0].target.id:
+        g = e.generators[0]
+        conds, var, it = list(g.ifs), g.target.id, g.iter
+    elif isinstance(e, ast.Call) and norm(e.func) == "filter" and len(e.args) == 2 and isinstance(e.args[0], ast.Lambda) and len(e.args[0].args.args) == 1:
+        conds, var, it = [e.args[0].body], e.args[0].args.args[0].arg, e.args[1]
+    elif isinstance(e, (ast.ListComp, ast.GeneratorExp)):
+        return INCONCLUSIVE, f"sibling set `{norm(sd)[:70]}` has an unrecognised shape"
+    # the level the siblings live on
+    if not (isinstance(it, ast.Subscript) and norm(it.value) in (f"{tree_p}.levels", f"{tree_p}._levels")):
+        return INCONCLUSIVE, f"cannot tell which demes `{norm(sd)[:70]}` ranges over"
+    lvl = canon(it.slice)
+    if lvl not in (f"{deme_v}.level+1", f"1+{deme_v}.level"):
+        import re
+
+        if re.fullmatch(re.escape(deme_v) + r"\.level([-+]\d+)?", lvl) or re.fullmatch(r"-?\d+", lvl):
+            return VIOLATION, f"siblings are taken from {tree_p}.levels[{norm(it.slice)}], not from the target level {deme_v}.level + 1"
+        return INCONCLUSIVE, f"cannot relate level index `{norm(it.slice)}` to {deme_v}.level + 1"
+    want = parse_cond("S.is_active" if want_filter == "active" else f"S.is_active or not {selfn}.check_only_active")
+    if not conds:
+        return OK, "every deme of the target level (a superset of the configured siblings)"
+    from ..normalize import _subst
+
+    actual = ast.BoolOp(op=ast.And(), values=[_subst(c, {var: ast.Name(id="S", ctx=ast.Load())}) for c in conds]) if len(conds) > 1 else _subst(conds[0], {var: ast.Name(id="S", ctx=ast.Load())})
+    eq = bool_equiv(actual, want)
+    if eq is True:
+        return OK, "configured demes of the target level"
+    if eq is None:
+        return INCONCLUSIVE, "sibling filter too large to decide"
+    if _implies(want, actual) is True:
+        return OK, "a superset of the configured siblings"
+    known = {"S.is_active", f"{selfn}.check_only_active"}
+    atoms = set()
+    from ..core import _bool_atoms
+
+    _bool_atoms(actual, atoms)
+    if atoms <= known:
+        return VIOLATION, f"sibling activity filter is `{' and '.join(norm(c) for c in conds)}`; expected {'sibling.is_active' if want_filter == 'active' else 'sibling.is_active or not self.check_only_active'}: some configured sibling is not compared with"
+    return INCONCLUSIVE, f"cannot decide whether the sibling filter `{' and '.join(norm(c) for c in conds)}` keeps every configured sibling"
 
 
 def _far_enough_filter(ctx: Ctx, cls_name: str, helper_name: str, want_filter: str, threshold_kind: str):
@@ -225,6 +313,45 @@ def _far_enough_filter(ctx: Ctx, cls_name: str, helper_name: str, want_filter: s
     for n in ast.walk(outer[0]):
         if isinstance(n, ast.Assign) and len(n.targets) == 1 and isinstance(n.targets[0], ast.Name):
             body_defs.setdefault(n.targets[0].id, []).append(n)
+    vdefs = {k: [d.value for d in v] for k, v in body_defs.items()}
+    cand_list = f"{cand_p}[{deme_v}].individuals"
+
+    def is_helper_call(c):
+        return isinstance(c, ast.Call) and isinstance(c.func, ast.Attribute) and is_self_attr(c.func, helper_name, selfn)
+
+    def check_pred_call(c, ind, sib, where):
+        args = [canon(a, vdefs) for a in c.args] + [None] * 3
+        kw = {k.arg: canon(k.value, vdefs) for k in c.keywords if k.arg}
+        h = ci.methods.get(helper_name)
+        hp = h.params()[1:] if h is not None else []
+        for i, pn in enumerate(hp[:3]):
+            if args[i] is None and pn in kw:
+                args[i] = kw[pn]
+        ok_args = args[0] == ind and args[1] == f"{sib}.centroid"
+        if ok_args:
+            st = OK
+        elif args[0] == ind and args[1] is not None and args[1].startswith(f"{sib}.") and args[1] != f"{sib}.centroid":
+            st = VIOLATION  # another attribute of the sibling (a stale cache field, the seed, ...)
+        elif args[0] == ind and args[1] is not None and (args[1].startswith(f"{deme_v}.") or "_centroid" in args[1]):
+            st = VIOLATION
+        else:
+            st = INCONCLUSIVE
+        obs.append(ctx.ob("R09.3", f, c, status=st, detail=f"{cls_name}: distance measured between the candidate and the sibling's centroid accessor" if st == OK else f"{cls_name}: the distance predicate is applied to ({', '.join(str(a) for a in args[:2])}) instead of (candidate, {sib}.centroid)", construct="pred-args"))
+        if threshold_kind == "nbc":
+            want_thr = f"{cand_p}[{deme_v}].features.nbc_mean_distance"
+            if args[2] == want_thr:
+                st = OK
+            elif args[2] is not None and args[2].endswith(".features.nbc_mean_distance"):
+                st = VIOLATION
+            else:
+                st = INCONCLUSIVE
+            obs.append(ctx.ob("R09.3", f, c, status=st, detail=f"{cls_name}: threshold scaled by the parent's own nbc_mean_distance" if st == OK else f"{cls_name}: the mean nearest-better distance passed is `{args[2]}`, not that of the candidate's own parent", construct="thr-arg"))
+
+    def check_extra(o, sib):
+        t = canon(o, vdefs)
+        if t not in (f"{sib}.centroidisnotNone",):
+            obs.append(ctx.ob("R09.3", f, o, status=INCONCLUSIVE, detail=f"{cls_name}: extra conjunct `{norm(o)}` in the candidate filter", construct="extra-conjunct"))
+
     # sibling loop
     sib_loops = [n for n in ast.walk(outer[0]) if isinstance(n, ast.For) and n is not outer[0]]
     hits = 0
@@ -233,124 +360,171 @@ def _far_enough_filter(ctx: Ctx, cls_name: str, helper_name: str, want_filter: s
             continue
         sib = sl.target.id
         # re-filter statements in the sibling loop body
-        refilters = [n for n in sl.body if isinstance(n, ast.Assign) and len(n.targets) == 1 and isinstance(n.targets[0], ast.Name) and isinstance(n.value, ast.ListComp)]
+        refilters = [n for n in ast.walk(sl) if isinstance(n, ast.Assign) and len(n.targets) == 1 and isinstance(n.targets[0], ast.Name) and isinstance(n.value, ast.ListComp) and any(is_helper_call(x) for x in ast.walk(n.value))]
         if not refilters:
             continue
         hits += 1
         # (a) sibling set provenance
-        src = sl.iter
-        src_defs = [src]
-        if isinstance(src, ast.Name) and src.id in body_defs:
-            src_defs = [d.value for d in body_defs[src.id]]
-        for sd in src_defs:
-            okp = False
-            why = f"sibling set `{norm(sd)}` is not a filtered view of {tree_p}.levels[{deme_v}.level + 1]"
-            if isinstance(sd, ast.ListComp) and len(sd.generators) == 1:
-                g = sd.generators[0]
-                it = norm(g.iter).replace(" ", "")
-                if it in (f"{tree_p}.levels[{deme_v}.level+1]", f"{tree_p}._levels[{deme_v}.level+1]") and isinstance(g.target, ast.Name) and norm(sd.elt) == g.target.id:
-                    kinds = [_sibling_filter_kind(ctx, f, c, g.target.id, selfn) for c in g.ifs]
-                    if want_filter == "active" and kinds == ["active"]:
-                        okp = True
-                    elif want_filter == "active-or-all" and kinds == ["active-or-all"]:
-                        okp = True
-                    elif not g.ifs:
-                        why = "the filter compares with every deme of the target level, including stopped ones, although it is configured to consider active siblings" if want_filter == "active" else "sibling set ignores check_only_active"
-                        okp = False
-                    else:
-                        why = f"sibling activity filter is `{' and '.join(norm(c) for c in g.ifs)}`; expected {'sibling.is_active' if want_filter == 'active' else 'sibling.is_active or not self.check_only_active'}"
-            obs.append(ctx.ob("R09.3", f, sd, status=OK if okp else VIOLATION, detail=f"{cls_name}: siblings = configured demes of the target level" if okp else f"{cls_name}: {why}", construct="siblings"))
+        st, why = _sibling_set_status(sl.iter, tree_p, deme_v, selfn, want_filter, vdefs)
+        obs.append(ctx.ob("R09.3", f, sl.iter, status=st, detail=f"{cls_name}: siblings = {why}" if st == OK else f"{cls_name}: {why}", construct="siblings"))
         # (b) the re-filter: [ind for ind in <cur> if pred(ind, sib.centroid, ...)], assigned back to <cur>
         for rf in refilters:
             comp = rf.value
             cur = rf.targets[0].id
             g = comp.generators[0]
-            shape_ok = len(comp.generators) == 1 and isinstance(g.target, ast.Name) and norm(comp.elt) == g.target.id and norm(g.iter) == cur and g.ifs
+            shape_ok = len(comp.generators) == 1 and isinstance(g.target, ast.Name) and norm(comp.elt) == g.target.id and g.ifs
             if not shape_ok:
                 obs.append(ctx.ob("R09.3", f, rf, status=INCONCLUSIVE, detail=f"{cls_name}: candidate re-filter has an unrecognised shape", construct="refilter"))
                 continue
-            ind = g.target.id
-            cond = g.ifs[0] if len(g.ifs) == 1 else ast.BoolOp(op=ast.And(), values=list(g.ifs))
-            conj = cond.values if isinstance(cond, ast.BoolOp) and isinstance(cond.op, ast.And) else [cond]
-            if isinstance(cond, ast.BoolOp) and isinstance(cond.op, ast.Or):
-                obs.append(ctx.ob("R09.3", f, rf, status=VIOLATION, detail=f"{cls_name}: a candidate is kept if the distance test OR something else holds: `{norm(cond)}`", construct="refilter-pred"))
+            if norm(g.iter) != cur:
+                restart = canon(g.iter, vdefs) == cand_list
+                obs.append(ctx.ob("R09.3", f, rf, status=VIOLATION if restart else INCONCLUSIVE, detail=f"{cls_name}: every sibling re-filters `{norm(g.iter)}` instead of the running list `{cur}`: only the last sibling counts" if restart else f"{cls_name}: candidate re-filter has an unrecognised shape", construct="refilter"))
                 continue
-            calls = [c for c in conj if isinstance(c, ast.Call) and isinstance(c.func, ast.Attribute) and is_self_attr(c.func, helper_name, selfn)]
+            if rf not in sl.body:
+                obs.append(ctx.ob("R09.3", f, rf, status=INCONCLUSIVE, detail=f"{cls_name}: the re-filter is nested in further control flow inside the sibling loop", construct="refilter"))
+                continue
+            ind = g.target.id
+            if len(g.ifs) == 1 and isinstance(g.ifs[0], ast.BoolOp) and isinstance(g.ifs[0].op, ast.Or):
+                obs.append(ctx.ob("R09.3", f, rf, status=VIOLATION if any(is_helper_call(v) for v in g.ifs[0].values) else INCONCLUSIVE, detail=f"{cls_name}: a candidate is kept if the distance test OR something else holds: `{norm(g.ifs[0])}`", construct="refilter-pred"))
+                continue
+            conj = _conjuncts(g.ifs)
+            calls = [c for c in conj if is_helper_call(c)]
             others = [c for c in conj if c not in calls]
             if len(calls) != 1:
-                obs.append(ctx.ob("R09.3", f, rf, status=VIOLATION if not calls else INCONCLUSIVE, detail=f"{cls_name}: the candidate filter does not apply the distance predicate `{helper_name}` (keeps `{norm(cond)}`)", construct="refilter-pred"))
+                neg = [c for c in conj if isinstance(c, ast.UnaryOp) and isinstance(c.op, ast.Not) and is_helper_call(c.operand)]
+                obs.append(ctx.ob("R09.3", f, rf, status=VIOLATION if neg else INCONCLUSIVE, detail=f"{cls_name}: the candidate filter does not apply the distance predicate `{helper_name}` positively (keeps `{' and '.join(norm(c) for c in conj)}`)", construct="refilter-pred"))
                 continue
-            c = calls[0]
-            args = [norm(a) for a in c.args]
-            ok_args = len(args) >= 2 and args[0] == ind and args[1] == f"{sib}.centroid"
-            obs.append(ctx.ob("R09.3", f, c, status=OK if ok_args else VIOLATION, detail=f"{cls_name}: distance measured between the candidate and the sibling's centroid accessor" if ok_args else f"{cls_name}: the distance predicate is applied to ({', '.join(args)}) instead of (candidate, {sib}.centroid)", construct="pred-args"))
+            check_pred_call(calls[0], ind, sib, rf)
             for o in others:
-                t = norm(o)
-                if t != f"{sib}.centroid is not None":
-                    obs.append(ctx.ob("R09.3", f, o, status=INCONCLUSIVE, detail=f"{cls_name}: extra conjunct `{t}` in the candidate filter", construct="extra-conjunct"))
-            if threshold_kind == "nbc":
-                ok_thr = len(args) == 3 and args[2] == f"{cand_p}[{deme_v}].features.nbc_mean_distance"
-                obs.append(ctx.ob("R09.3", f, c, status=OK if ok_thr else VIOLATION, detail=f"{cls_name}: threshold scaled by the parent's own nbc_mean_distance" if ok_thr else f"{cls_name}: the mean nearest-better distance passed is `{args[2] if len(args) > 2 else '?'}`, not that of the candidate's own parent", construct="thr-arg"))
+                check_extra(o, sib)
         # (c) initial value and write-back
         cur = refilters[0].targets[0].id
         init = [d for d in body_defs.get(cur, []) if d not in refilters]
-        ok_init = len(init) == 1 and norm(init[0].value) == f"{cand_p}[{deme_v}].individuals"
-        wb = [n for n in ast.walk(outer[0]) if isinstance(n, ast.Assign) and norm(n.targets[0]) == f"{cand_p}[{deme_v}].individuals"]
-        ok_wb = len(wb) == 1 and norm(wb[0].value) == cur and wb[0] in outer[0].body
-        obs.append(ctx.ob("R09.3", f, init[0] if init else sl, status=OK if (ok_init and ok_wb) else VIOLATION, detail=f"{cls_name}: candidates filtered against every sibling in turn and written back" if (ok_init and ok_wb) else f"{cls_name}: the filtered list is not (initialised from / written back to) {cand_p}[{deme_v}].individuals after the loop over all siblings", construct="init-writeback"))
+        wb = [n for n in ast.walk(outer[0]) if isinstance(n, ast.Assign) and canon(n.targets[0], vdefs) == cand_list]
+        if len(init) == 1 and canon(init[0].value, vdefs) == cand_list and len(wb) >= 1 and all(norm(w.value) == cur for w in wb) and any(w in outer[0].body for w in wb):
+            st = OK
+        elif not wb:
+            st = VIOLATION
+        elif len(init) == 1 and isinstance(init[0].value, (ast.List, ast.Subscript)) and (isinstance(init[0].value, ast.List) or (isinstance(init[0].value.slice, ast.Slice) and canon(init[0].value.value, vdefs) == cand_list)):
+            st = VIOLATION  # starts from an empty list / a slice of the candidates
+        else:
+            st = INCONCLUSIVE
+        obs.append(ctx.ob("R09.3", f, init[0] if init else sl, status=st, detail=f"{cls_name}: candidates filtered against every sibling in turn and written back" if st == OK else f"{cls_name}: the filtered list is not (initialised from / written back to) {cand_list} after the loop over all siblings", construct="init-writeback"))
         # quantifier: no early exit from the sibling loop
         early = [n for n in ast.walk(sl) if isinstance(n, (ast.Break, ast.Return))]
         conts = [n for n in ast.walk(sl) if isinstance(n, ast.Continue)]
+        guards = [n for n in sl.body if isinstance(n, ast.If) and any(r in ast.walk(n) for r in refilters)]
         if early:
             obs.append(ctx.ob("R09.3", f, early[0], status=VIOLATION, detail=f"{cls_name}: the loop over siblings can stop early: candidates are not compared with every sibling", construct="early-exit"))
         if conts:
-            obs.append(ctx.ob("R09.3", f, conts[0], status=VIOLATION, detail=f"{cls_name}: some siblings are skipped in the distance loop", construct="sibling-skip"))
-    if hits != 1:
-        existential = [c for c in ast.walk(outer[0]) if isinstance(c, ast.Call) and norm(c.func) == "any" and any(isinstance(x, ast.Call) and isinstance(x.func, ast.Attribute) and x.func.attr == helper_name for x in ast.walk(c))]
-        if existential:
-            obs.append(ctx.ob("R09.3", f, existential[0], status=VIOLATION, detail=f"{cls_name}: a candidate is kept when it is far from SOME sibling (`any(...)`) instead of from every sibling", construct="existential"))
+            obs.append(ctx.ob("R09.3", f, conts[0], status=INCONCLUSIVE, detail=f"{cls_name}: some siblings may be skipped in the distance loop", construct="sibling-skip"))
+        for gd in guards:
+            obs.append(ctx.ob("R09.3", f, gd, status=INCONCLUSIVE, detail=f"{cls_name}: siblings are compared only under `{norm(gd.test)}`", construct="sibling-skip"))
+    if hits == 0:
+        # single-comprehension form: [ind for ind in cands if all(pred(ind, s.centroid) for s in siblings)]
+        quant = [c for c in ast.walk(outer[0]) if isinstance(c, ast.Call) and norm(c.func) in ("all", "any") and len(c.args) == 1 and isinstance(c.args[0], (ast.GeneratorExp, ast.ListComp)) and any(is_helper_call(x) for x in ast.walk(c))]
+        if quant and norm(quant[0].func) == "any" and is_helper_call(quant[0].args[0].elt):
+            obs.append(ctx.ob("R09.3", f, quant[0], status=VIOLATION, detail=f"{cls_name}: a candidate is kept when it is far from SOME sibling (`any(...)`) instead of from every sibling", construct="existential"))
+        elif quant and norm(quant[0].func) == "all" and len(quant[0].args[0].generators) == 1 and isinstance(quant[0].args[0].generators[0].target, ast.Name):
+            ge = quant[0].args[0]
+            sib = ge.generators[0].target.id
+            hits = 1
+            st, why = _sibling_set_status(ge.generators[0].iter if not ge.generators[0].ifs else ast.ListComp(elt=ast.Name(id=sib, ctx=ast.Load()), generators=ge.generators), tree_p, deme_v, selfn, want_filter, vdefs)
+            obs.append(ctx.ob("R09.3", f, ge, status=st, detail=f"{cls_name}: siblings = {why}" if st == OK else f"{cls_name}: {why}", construct="siblings"))
+            # the enclosing candidate comprehension
+            encl = [n for n in ast.walk(outer[0]) if isinstance(n, ast.ListComp) and any(x is quant[0] for x in ast.walk(n))]
+            if len(encl) == 1 and len(encl[0].generators) == 1 and isinstance(encl[0].generators[0].target, ast.Name) and norm(encl[0].elt) == encl[0].generators[0].target.id and canon(encl[0].generators[0].iter, vdefs) == cand_list:
+                ind = encl[0].generators[0].target.id
+                pc = _conjuncts([ge.elt])
+                calls = [c for c in pc if is_helper_call(c)]
+                if len(calls) == 1:
+                    check_pred_call(calls[0], ind, sib, ge)
+                    for o in pc:
+                        if o is not calls[0]:
+                            check_extra(o, sib)
+                else:
+                    obs.append(ctx.ob("R09.3", f, ge, status=INCONCLUSIVE, detail=f"{cls_name}: quantified predicate has an unrecognised shape", construct="refilter-pred"))
+                wb = [n for n in ast.walk(outer[0]) if isinstance(n, ast.Assign) and canon(n.targets[0], vdefs) == cand_list]
+                okwb = any(x is encl[0] for w in wb for x in ast.walk(w)) or any(isinstance(w.value, ast.Name) and any(x is encl[0] for d in vdefs.get(w.value.id, []) for x in ast.walk(d)) for w in wb)
+                obs.append(ctx.ob("R09.3", f, encl[0], status=OK if okwb else VIOLATION if not wb else INCONCLUSIVE, detail=f"{cls_name}: candidates filtered against every sibling and written back" if okwb else f"{cls_name}: the filtered list is not written back to {cand_list}", construct="init-writeback"))
+            else:
+                obs.append(ctx.ob("R09.3", f, quant[0], status=INCONCLUSIVE, detail=f"{cls_name}: candidate filter has an unrecognised shape", construct="refilter"))
         else:
-            obs.append(ctx.ob("R09.3", f, f.node, status=INCONCLUSIVE if hits == 0 else VIOLATION, detail=f"{cls_name}: found {hits} sibling loops that filter candidates (expected 1)", construct="sibling-loop"))
+            obs.append(ctx.ob("R09.3", f, f.node, status=INCONCLUSIVE, detail=f"{cls_name}: found no loop over siblings that filters candidates", construct="sibling-loop"))
+    elif hits > 1:
+        obs.append(ctx.ob("R09.3", f, f.node, status=INCONCLUSIVE, detail=f"{cls_name}: found {hits} sibling loops that filter candidates (expected 1)", construct="sibling-loop"))
     # (d) the predicate helper: strict `>` against the threshold
     h = ci.methods.get(helper_name)
     if h is None:
         obs.append(ctx.ob("R09.3", f, f.node, status=INCONCLUSIVE, detail=f"{cls_name}: predicate helper {helper_name} not found", construct="helper"))
         return obs
     hs = h.self_name()
+    hdefs = local_defs(h)
     rets = [r for r in body_walk(h.node) if isinstance(r, ast.Return)]
-    okh = False
-    why = "predicate is not `norm(candidate - centroid) > threshold`"
-    if len(rets) == 1 and isinstance(rets[0].value, ast.Compare) and len(rets[0].value.ops) == 1:
-        cmp = rets[0].value
-        l, r, op = cmp.left, cmp.comparators[0], cmp.ops[0]
-        if isinstance(op, ast.Lt):
-            l, r, op = r, l, ast.Gt()
+    st = INCONCLUSIVE
+    why = "predicate is not recognisable as `norm(candidate - centroid) > threshold`"
+    rv = None
+    if len(rets) == 1 and rets[0].value is not None:
+        import copy
+
+        from ..core import _Subst
+
+        rv = _Subst(hdefs, 4).visit(copy.deepcopy(rets[0].value))
+        if isinstance(rv, ast.UnaryOp) and isinstance(rv.op, ast.Not) and isinstance(rv.operand, ast.Compare) and len(rv.operand.ops) == 1:
+            inv = {ast.Lt: ast.GtE, ast.LtE: ast.Gt, ast.Gt: ast.LtE, ast.GtE: ast.Lt}
+            o = type(rv.operand.ops[0])
+            if o in inv:
+                rv = ast.Compare(left=rv.operand.left, ops=[inv[o]()], comparators=rv.operand.comparators)
+    if isinstance(rv, ast.Compare) and len(rv.ops) == 1:
+        l, r, op = rv.left, rv.comparators[0], rv.ops[0]
+        if isinstance(op, (ast.Lt, ast.LtE)):
+            l, r, op = r, l, (ast.Gt() if isinstance(op, ast.Lt) else ast.GtE())
         ps = h.params()
         ind_p, cen_p = ps[1], ps[2]
-        is_norm = isinstance(l, ast.Call) and norm(l.func).split(".")[-1] == "norm" and l.args and norm(l.args[0]).replace(" ", "") in (f"{ind_p}.genome-{cen_p}", f"{cen_p}-{ind_p}.genome")
-        ord_ok = isinstance(l, ast.Call) and all(k.arg != "ord" or norm(k.value) == f"{hs}.norm_ord" for k in l.keywords)
-        thr = norm(r).replace(" ", "")
+        is_norm_call = isinstance(l, ast.Call) and norm(l.func).split(".")[-1] == "norm" and l.args
+        is_norm = is_norm_call and canon(l.args[0]) in (f"{ind_p}.genome-{cen_p}", f"{cen_p}-{ind_p}.genome")
+        ordv = (next((k.value for k in l.keywords if k.arg == "ord"), l.args[1] if len(l.args) > 1 else None)) if is_norm_call else None
+        thr = canon(r)
         if threshold_kind == "abs":
             thr_ok = thr == f"{hs}.min_distance"
+            thr_related = f"{hs}.min_distance" in thr
         else:
-            thr_ok = thr in (f"{hs}.min_distance_factor*{ps[3]}", f"{ps[3]}*{hs}.min_distance_factor") if len(ps) > 3 else False
+            thr_ok = len(ps) > 3 and thr in (f"{hs}.min_distance_factor*{ps[3]}", f"{ps[3]}*{hs}.min_distance_factor")
+            thr_related = f"{hs}.min_distance_factor" in thr or (len(ps) > 3 and ps[3] in thr)
         if not isinstance(op, ast.Gt):
-            why = f"the distance comparator is `{type(op).__name__}` (must be strict `>`: a candidate exactly at the threshold is rejected)"
+            if isinstance(op, ast.GtE) and (is_norm or not is_norm_call):
+                st, why = VIOLATION, "the distance comparator is `>=` (must be strict `>`: a candidate exactly at the threshold is rejected)"
+            elif is_norm_call and is_norm is False and isinstance(r, ast.Call):
+                st, why = VIOLATION, f"the comparison `{norm(rets[0].value)}` keeps candidates that are closer than the threshold"
+            else:
+                st, why = INCONCLUSIVE, f"cannot orient the comparison `{norm(rets[0].value)}`"
+        elif not is_norm_call and isinstance(r, ast.Call) and norm(r.func).split(".")[-1] == "norm":
+            st, why = VIOLATION, f"`{norm(rets[0].value)}` keeps candidates whose distance is BELOW the threshold"
         elif not is_norm:
-            why = f"the compared quantity `{norm(l)}` is not the norm of (candidate genome - centroid)"
-        elif not ord_ok:
-            why = "the norm order is not the configured norm_ord"
+            st, why = INCONCLUSIVE, f"the compared quantity `{norm(l)}` is not recognisable as the norm of (candidate genome - centroid)"
+        elif ordv is None:
+            st, why = VIOLATION, "the configured norm order (norm_ord) is not used: distances are always Euclidean"
+        elif canon(ordv) != f"{hs}.norm_ord":
+            st, why = (VIOLATION if isinstance(ordv, ast.Constant) else INCONCLUSIVE), f"the norm order is `{norm(ordv)}`, not the configured norm_ord"
         elif not thr_ok:
-            why = f"the threshold `{norm(r)}` is not the configured {'min_distance' if threshold_kind == 'abs' else 'min_distance_factor x mean nearest-better distance'}"
+            definite = isinstance(r, ast.Constant) or (thr_related and isinstance(r, ast.BinOp)) or (isinstance(r, ast.Attribute) and is_self_attr(r, None, hs))
+            st, why = (VIOLATION if definite else INCONCLUSIVE), f"the threshold `{norm(r)}` is not the configured {'min_distance' if threshold_kind == 'abs' else 'min_distance_factor x mean nearest-better distance'}"
         else:
-            okh = True
-    obs.append(ctx.ob("R09.3", h, rets[0] if rets else h.node, status=OK if okh else VIOLATION, detail=f"{cls_name}: strict `>` between ||candidate - centroid|| and the configured threshold" if okh else f"{cls_name}: {why}", construct="predicate"))
+            st = OK
+    obs.append(ctx.ob("R09.3", h, rets[0] if rets else h.node, status=st, detail=f"{cls_name}: strict `>` between ||candidate - centroid|| and the configured threshold" if st == OK else f"{cls_name}: {why}", construct="predicate"))
     return obs
 
 
 def r09_3(ctx: Ctx):
     """R09.3 FarEnough / NBC_FarEnough: sibling set, accessor, universal quantifier, strict comparator, threshold."""
     return _far_enough_filter(ctx, "FarEnough", "_is_far_enough", "active", "abs") + _far_enough_filter(ctx, "NBC_FarEnough", "_is_nbc_far_enough", "active-or-all", "nbc")
+
+
+def _resolve1(e, defs, hops=5):
+    while isinstance(e, ast.Name) and e.id in defs and len(defs[e.id]) == 1 and hops > 0 and not isinstance(defs[e.id][0], ast.AugAssign):
+        e = defs[e.id][0]
+        hops -= 1
+    return e
 
 
 def r09_4(ctx: Ctx):
@@ -361,26 +535,56 @@ def r09_4(ctx: Ctx):
         f = ci.methods["__call__"]
         defs = local_defs(f)
         n_sites = 0
-        for c in body_walk(f.node):
-            if isinstance(c, ast.Call) and norm(c.func) == "DemeFeatures":
-                kw = next((k.value for k in c.keywords if k.arg == "nbc_mean_distance"), None)
-                if kw is None or (isinstance(kw, ast.Constant)):
-                    continue
-                n_sites += 1
-                ok = False
-                why = f"nbc_mean_distance = `{norm(kw)}`"
-                if isinstance(kw, ast.Call) and norm(kw.func) in ("np.mean", "numpy.mean") and len(kw.args) == 1 and isinstance(kw.args[0], ast.Attribute) and kw.args[0].attr == "distances" and isinstance(kw.args[0].value, ast.Name):
-                    nbc = kw.args[0].value.id
+        for dc in body_walk(f.node):
+            if not (isinstance(dc, ast.Call) and norm(dc.func) == "DemeCandidates"):
+                continue
+            feat = _resolve1(next((k.value for k in dc.keywords if k.arg == "features"), dc.args[1] if len(dc.args) > 1 else None), defs)
+            if not (isinstance(feat, ast.Call) and norm(feat.func) == "DemeFeatures"):
+                continue
+            kw0 = next((k.value for k in feat.keywords if k.arg == "nbc_mean_distance"), feat.args[0] if feat.args else None)
+            kw = _resolve1(kw0, defs)
+            if kw is None or isinstance(kw, ast.Constant):
+                continue
+            n_sites += 1
+            c = feat
+            while isinstance(kw, ast.Call) and norm(kw.func) in ("float", "np.float64") and len(kw.args) == 1:
+                kw = _resolve1(kw.args[0], defs)
+            st = INCONCLUSIVE
+            why = f"cannot tell what nbc_mean_distance = `{norm(kw0)}` is"
+            dist = None
+            if isinstance(kw, ast.Call) and norm(kw.func) in ("np.mean", "numpy.mean", "np.average") and len(kw.args) == 1 and not kw.keywords:
+                dist = _resolve1(kw.args[0], defs)
+            elif isinstance(kw, ast.Call) and isinstance(kw.func, ast.Attribute) and kw.func.attr == "mean" and not kw.args:
+                dist = _resolve1(kw.func.value, defs)
+            elif isinstance(kw, ast.Call) and norm(kw.func).split(".")[-1] in ("median", "max", "min", "sum", "std"):
+                st, why = VIOLATION, f"nbc_mean_distance = `{norm(kw)}` is not the mean of the clustering's distances"
+            if dist is not None:
+                if isinstance(dist, ast.Attribute) and dist.attr == "distances" and isinstance(dist.value, ast.Name):
+                    nbc = dist.value.id
                     nd = defs.get(nbc, [])
-                    built = len(nd) == 1 and isinstance(nd[0], ast.Call) and norm(nd[0].func) == "NearestBetterClustering" and nd[0].args and norm(nd[0].args[0]).endswith(".current_population")
-                    # candidates come from nbc.cluster() of the same object
-                    cand_ok = any(isinstance(d, ast.Call) and norm(d.func) == f"{nbc}.cluster" for ds in defs.values() for d in ds)
-                    ok = built and cand_ok
-                    if not built:
-                        why = f"`{nbc}` is not NearestBetterClustering(<deme>.current_population, ...)"
-                    elif not cand_ok:
-                        why = "candidates are not taken from the same clustering object"
-                obs.append(ctx.ob("R09.4", f, c, status=OK if ok else VIOLATION, detail=f"{cname}: feature and candidates come from one clustering of the deme's current population" if ok else f"{cname}: {why}"))
+                    built = len(nd) == 1 and isinstance(nd[0], ast.Call) and norm(nd[0].func) == "NearestBetterClustering" and (nd[0].args or nd[0].keywords)
+                    pop = None
+                    if built:
+                        pop = nd[0].args[0] if nd[0].args else next((k.value for k in nd[0].keywords if k.arg in ("evaluated_individuals", "individuals", "population")), None)
+                    popt = canon(pop, defs) if pop is not None else "?"
+                    inds = _resolve1(next((k.value for k in dc.keywords if k.arg == "individuals"), dc.args[0] if dc.args else None), defs)
+                    if isinstance(inds, ast.Call) and norm(inds.func).endswith(".cluster") and isinstance(inds.func.value, ast.Name):
+                        other = inds.func.value.id
+                        if not built:
+                            st, why = INCONCLUSIVE, f"`{nbc}` is not a single NearestBetterClustering(...) construction"
+                        elif other != nbc:
+                            st, why = VIOLATION, f"candidates come from `{other}.cluster()` but the exported mean distance from `{nbc}`: the threshold does not describe the clustering that produced the candidates"
+                        elif popt.endswith(".current_population"):
+                            st = OK
+                        elif popt.endswith((".all_individuals", ".best_individual", ".best_current_individual")) or "_history" in popt:
+                            st, why = VIOLATION, f"`{nbc}` clusters `{popt}`, not the deme's current population"
+                        else:
+                            st, why = INCONCLUSIVE, f"cannot tell which population `{popt}` is"
+                    else:
+                        st, why = INCONCLUSIVE, "candidates are not recognisably taken from the same clustering object"
+                elif isinstance(dist, ast.Attribute) and dist.attr != "distances":
+                    st, why = VIOLATION, f"nbc_mean_distance averages `{norm(dist)}`, not the clustering's nearest-better distances"
+            obs.append(ctx.ob("R09.4", f, c, status=st, detail=f"{cname}: feature and candidates come from one clustering of the deme's current population" if st == OK else f"{cname}: {why}", construct=f"feature:{n_sites}"))
         if n_sites == 0:
             obs.append(ctx.ob("R09.4", f, f.node, status=INCONCLUSIVE, detail=f"{cname}: no computed nbc_mean_distance feature found", construct="no-feature"))
     return obs
